@@ -271,8 +271,14 @@ func flipBit(bits string, i int) string {
 var interestingDepths = []int{0, 1, 2, 3, 62, 63, 64, 65, 123, 124, 125, 126, 127, 128, 186, 187, 188, 191, 192, 193, 247, 248, 249, 250}
 
 func pickDepth(r *lib.RNG, height int) int {
-	if height <= 16 || r.Chance(1, 3) {
+	if height <= 16 || r.Chance(1, 4) {
 		return r.Intn(height)
+	}
+	switch r.Intn(6) {
+	case 0: // sibling leaves / divergence at the last bit
+		return height - 1
+	case 1: // the bottom byte
+		return height - 1 - r.Intn(8)
 	}
 	for {
 		d := lib.Pick(r, interestingDepths)
